@@ -120,6 +120,15 @@ def run_step(w: World, op: dict, *, probes=None, index_every=True) -> StepResult
                                     plan.trigger + f"/fault-{fault['cb']}")
                     w.mark_removed(i, removed)
                 guard(_ad)
+    elif plan.contract == O.NOCHANGE:
+        res.outcome = "refused" if exc is not None else "ok"
+        if not unchanged:
+            viol.append(Violation(
+                "C13" if exc is not None else plan.owner,
+                "refused-op-changed-state" if exc is not None else "noop-changed-state",
+                f"{op['k']} with {plan.why} "
+                f"{'raised ' + exc_name if exc is not None else 'returned'} but the tree changed",
+                plan.trigger))
     elif plan.contract == O.REFUSE:
         if exc is None:
             res.outcome = "not-refused"
